@@ -30,10 +30,13 @@ def nontrivial(t):
 
 class Scripted:
     """Scripted clusterer (binding B): K clusters; the trimmed training pool is predicted into `ltrim` only
-    (a fitted cluster may attract no trimmed point), resampled particles into every label of 0..K-1."""
+    (a fitted cluster may attract no trimmed point; with `small` = m the LAST label of ltrim gets exactly m training
+    points - a cluster that keeps only a few trimmed particles); resampled particles get labels by `slots`:
+    "all" every label of 0..K-1 occurs, "top" every particle in cluster K-1 (lower clusters hold no active particle),
+    "gap" only clusters 0 and K-1 occur."""
 
-    def __init__(self, K, ltrim, n_particles):
-        self.K, self.ltrim, self.np_ = K, list(ltrim), n_particles
+    def __init__(self, K, ltrim, n_particles, small=0, slots="all"):
+        self.K, self.ltrim, self.np_, self.small, self.slots = K, list(ltrim), n_particles, small, slots
         self.n_clusters_ = 0
         self.calls = 0
 
@@ -46,11 +49,21 @@ class Scripted:
 
         self.calls += 1
         n = len(X)
-        if n == self.np_ and self.calls % 2 == 0:  # the Resampler's call: every label occurs
+        if n == self.np_ and self.calls % 2 == 0:  # the Resampler's call
+            if self.slots == "top":
+                return np.full(n, self.K - 1)
+            if self.slots == "gap":
+                return np.where(np.arange(n) % 2 == 0, 0, self.K - 1)
             return np.arange(n) % self.K
         # the Trainer's call: a function of the point (duplicates get the same label), balanced over ltrim
         rows = [np.ascontiguousarray(x, dtype=float).tobytes() for x in X]
-        rank = {r: k for k, r in enumerate(sorted(set(rows)))}
+        uniq = sorted(set(rows))
+        rank = {r: k for k, r in enumerate(uniq)}
+        if self.small and len(self.ltrim) >= 2:
+            # the last label gets exactly `small` distinct points, the others share the rest
+            rest = self.ltrim[:-1]
+            lab = {r: (self.ltrim[-1] if k < self.small else rest[k % len(rest)]) for r, k in rank.items()}
+            return np.array([lab[r] for r in rows])
         return np.array([self.ltrim[rank[r] % len(self.ltrim)] for r in rows])
 
 
@@ -67,12 +80,12 @@ def _scripted_job(job):
     rec = psrun.Recorder(2, label=job["label"])
     np.random.seed(job["seed"])
     s, c = drivers.build_sampler(conf, rec)
-    fake = Scripted(K, ltrim, 12)
+    fake = Scripted(K, ltrim, 12, small=job.get("small", 0), slots=job.get("slots", "all"))
     s._core.trainer.clusterer = fake
     s._core.resampler.clusterer = fake
     rec.attach(s)
     _, _, tr = drivers.record_run(conf, n_total=24, seed=job["seed"], label=job["label"], rec=rec, sampler=s)
-    tr["meta"]["scripted"] = dict(K=K, ltrim=list(ltrim), every=every)
+    tr["meta"]["scripted"] = dict(K=K, ltrim=list(ltrim), every=every, small=job.get("small", 0), slots=job.get("slots", "all"))
     return tr
 
 
@@ -91,13 +104,18 @@ def scripted_part(ck):
                 for every, kern in ((1, "tpcn"), (2, "rwm")):
                     jobs.append(dict(K=K, ltrim=ltrim, every=every, kernel=kern, seed=140 + len(jobs) + 1000 * ck.seed,
                                      label=f"scripted K={K} Ltrim={list(ltrim)} every={every} {kern}"))
+    # clusters that keep only a few trimmed training particles (2d-1 = 3 distinct points) and active sets whose labels have gaps
+    for K, ltrim, small, slots in ((2, (0, 1), 3, "all"), (3, (0, 1, 2), 3, "all"), (2, (0, 1), 0, "top"), (3, (0, 1, 2), 0, "gap"), (3, (0, 2), 0, "gap"), (3, (0, 1, 2), 3, "top")):
+        for every, kern in ((1, "tpcn"), (2, "rwm")):
+            jobs.append(dict(K=K, ltrim=ltrim, every=every, kernel=kern, small=small, slots=slots, seed=190 + len(jobs) + 1000 * ck.seed,
+                             label=f"scripted K={K} Ltrim={list(ltrim)} small={small} slots={slots} every={every} {kern}"))
     with cf.ProcessPoolExecutor(max_workers=sysrun.PROCS, mp_context=mp.get_context("fork")) as ex:
         traces = list(ex.map(_scripted_job, jobs))
     fails, st = psrun.validate(traces)
     for f in fails:
         tr = traces[f["tid"] - 1]
         for cl in f["clauses"]:
-            if psrun.CLAUSE_PROPERTY.get(cl) == "C14" or cl == "NoRaise":
+            if psrun.CLAUSE_PROPERTY.get(cl) == "C14" or cl in ("NoRaise", "MB_SameSlots"):
                 sc = tr["meta"]["scripted"]
                 unpop = len(sc["ltrim"]) < sc["K"]
                 ck.violation(f"scripted:{cl}:" + ("unpopulated-label" if unpop else "all-populated"),
